@@ -9,6 +9,7 @@ CONSTANTS
   Faults = FALSE
   Membership = FALSE
   TrackLate = FALSE
+  Noise = TRUE
   Light = TRUE
 INVARIANT NoViolation
 INVARIANT HeapOrder
